@@ -190,6 +190,10 @@ pub fn check_pair(bufs: &mut Bufs, h: &[u8], n: &[u8]) -> CaseResult {
 
     rep.nontrivial_if((!n.is_empty() && h.len() >= n.len()) || h.contains(&b'/') || n.contains(&b'/'));
     rep.class_if(n.is_empty(), "empty-needle");
+    rep.class_if(h == n && h.len() >= 7, "equal-operands-of-7-bytes-or-more");
+    rep.class_if(h != n && exp_p >= 8, "common-prefix-of-8-bytes-or-more");
+    rep.class_if(h != n && exp_p == n.len() && exp_p > 0, "needle-is-proper-prefix");
+    rep.class_if(h != n && exp_p == h.len() && exp_p > 0, "haystack-is-proper-prefix");
     rep.class_if(h.is_empty(), "empty-haystack");
     rep.class_if(n.len() > h.len(), "needle-longer");
     if let Some(i) = exp {
@@ -298,6 +302,26 @@ fn pair_rand() -> impl Strategy<Value = Pair> {
         })
 }
 
+/// operands built around a common prefix of generated length (0..=96, so that every length modulo a machine
+/// word and modulo a vector width occurs many times), each continued by its own short tail (often empty: equal
+/// operands, or one a proper prefix of the other) - the inputs on which common-prefix length, suffix test and
+/// search at position 0 have something to say
+fn pair_prefix() -> impl Strategy<Value = Pair> {
+    let byte = || prop_oneof![8 => prop::sample::select(ALPHA.to_vec()), 1 => 1u8..=255u8];
+    let tail = move || prop_oneof![3 => Just(Vec::new()), 3 => prop::collection::vec(byte(), 1..4), 1 => prop::collection::vec(byte(), 4..20)];
+    (prop::collection::vec(byte(), 0..=96), tail(), tail(), any::<bool>()).prop_map(|(p, ta, tb, differ)| {
+        let (mut h, mut n) = (p.clone(), p);
+        h.extend_from_slice(&ta);
+        n.extend_from_slice(&tb);
+        // tails that happen to start alike lengthen the common prefix; optionally force a difference right at the seam
+        if differ && !ta.is_empty() && !tb.is_empty() && ta[0] == tb[0] {
+            let at = h.len() - ta.len();
+            h[at] = if h[at] == b'a' { b'b' } else { b'a' };
+        }
+        Pair { h: BStr(h), n: BStr(n) }
+    })
+}
+
 fn path_rand() -> impl Strategy<Value = PathCase> {
     prop::collection::vec(prop_oneof![3 => Just(b'/'), 6 => prop::sample::select(vec![b'a', b'b', b'.']), 1 => 1u8..=255u8], 0..600).prop_map(|p| PathCase { p: BStr(p) })
 }
@@ -329,6 +353,31 @@ pub fn run(ctx: &Ctx) {
         if ok {
             ctx.note_exhaustive(format!("pair-exh: all {} ordered pairs of strings over {{a,b,/,.}} of length 0..={} (this worker: every {}th)", total, max_len, ctx.nworkers));
         }
+        // every common-prefix length 0..=130 x every pair of tails from {"", "a", "b", "ab"}: equal operands, proper
+        // prefixes either way, a difference right after the prefix - at every length modulo 8, 16, 32 and 64
+        let tails: [&[u8]; 4] = [b"", b"a", b"b", b"ab"];
+        let mut okx = true;
+        let mut k = 0usize;
+        'px: for plen in 0..=130usize {
+            let pre: Vec<u8> = (0..plen).map(|i| ALPHA[(i * 7 + i / 5) % ALPHA.len()]).collect();
+            for ta in tails {
+                for tb in tails {
+                    k += 1;
+                    if k % ctx.nworkers as usize != ctx.worker as usize {
+                        continue;
+                    }
+                    let (h, n) = ([&pre[..], ta].concat(), [&pre[..], tb].concat());
+                    let case = Pair { h: BStr(h.clone()), n: BStr(n.clone()) };
+                    okx = ctx.run_one("prefix-exh", &case, || check_pair(&mut bufs.borrow_mut(), &h, &n));
+                    if !okx {
+                        break 'px;
+                    }
+                }
+            }
+        }
+        if okx {
+            ctx.note_exhaustive(format!("prefix-exh: common prefix of every length 0..=130 x 16 tail pairs from {{\"\", a, b, ab}}: {} operand pairs", 131 * 16));
+        }
         // exhaustive single paths
         let pstrings = all_strings(&ALPHA, 7);
         let mut okp = true;
@@ -349,6 +398,9 @@ pub fn run(ctx: &Ctx) {
         if let Some(c) = ctx.replay_case::<Pair>("pair-exh") {
             ctx.run_one("pair-exh", &c, || check_pair(&mut bufs.borrow_mut(), &c.h.0, &c.n.0));
         }
+        if let Some(c) = ctx.replay_case::<Pair>("prefix-exh") {
+            ctx.run_one("prefix-exh", &c, || check_pair(&mut bufs.borrow_mut(), &c.h.0, &c.n.0));
+        }
         if let Some(c) = ctx.replay_case::<PathCase>("path-exh") {
             ctx.run_one("path-exh", &c, || check_path(&mut bufs.borrow_mut(), &c.p.0));
         }
@@ -356,5 +408,6 @@ pub fn run(ctx: &Ctx) {
 
     // (2) random long operands with planted matches
     ctx.run_prop("pair-rand", ctx.cases(3000, 100_000), pair_rand(), |c: &Pair| check_pair(&mut bufs.borrow_mut(), &c.h.0, &c.n.0));
+    ctx.run_prop("pair-prefix", ctx.cases(3000, 100_000), pair_prefix(), |c: &Pair| check_pair(&mut bufs.borrow_mut(), &c.h.0, &c.n.0));
     ctx.run_prop("path-rand", ctx.cases(2000, 60_000), path_rand(), |c: &PathCase| check_path(&mut bufs.borrow_mut(), &c.p.0));
 }
